@@ -54,7 +54,7 @@ class UsedQubitIndicesVisitor(Visitor):
         # Work around prepare_all/measure_all not taking a register
         self.all_qubits = {}
         for reg in obj.fundamental_registers():
-            self.all_qubits[reg.name] = set(range(reg.size))
+            self.all_qubits[reg.name] = set(range(int(reg.size)))
 
         return self.visit(obj.body, context=context)
 
